@@ -82,6 +82,14 @@ func init() {
 											if c2, ok := in2.(ssa.CallInstruction); ok {
 												cc := c2.Common().StaticCallee()
 												if isFallback(cc) {
+													// the NFA must redo the whole search: its position arguments are the function's
+													// own parameters, not the position the scan had reached when the DFA gave up
+													// (a match in flight started before that position)
+													for _, a := range c2.Common().Args {
+														if isIntType(a.Type()) && dependsOnPhi(a, map[ssa.Value]bool{}) {
+															bad = p.Pos(c2.Pos()) + " (the fallback is started at a position computed in the scan loop, not at the search's own start: a match in flight when the DFA gave up is lost)"
+														}
+													}
 													return
 												}
 												if cc != nil && cc.Name() == "isCacheCleared" {
@@ -117,7 +125,11 @@ func init() {
 										o.Detail = "every return on the error branch goes through the NFA fallback, returns the error, or belongs to the cache-cleared restart"
 									} else {
 										o.Status = core.Violated
-										o.Detail = fmt.Sprintf("on the branch taken when determinize fails, the return at %s is reached without the NFA fallback: the DFA answers from the progress it had made (e.g. the first match end) although it could not go on", bad)
+										if strings.Contains(bad, "(the fallback") {
+											o.Detail = "on the branch taken when determinize fails: " + bad
+										} else {
+											o.Detail = fmt.Sprintf("on the branch taken when determinize fails, the return at %s is reached without the NFA fallback: the DFA answers from the progress it had made (e.g. the first match end) although it could not go on", bad)
+										}
 									}
 									res.Obligations = append(res.Obligations, o)
 								}
@@ -129,4 +141,23 @@ func init() {
 			return res
 		},
 	})
+}
+
+// dependsOnPhi: the value is computed from a loop-carried or merged value.
+func dependsOnPhi(v ssa.Value, seen map[ssa.Value]bool) bool {
+	if seen[v] {
+		return false
+	}
+	seen[v] = true
+	switch x := v.(type) {
+	case *ssa.Phi:
+		return true
+	case *ssa.BinOp:
+		return dependsOnPhi(x.X, seen) || dependsOnPhi(x.Y, seen)
+	case *ssa.Convert:
+		return dependsOnPhi(x.X, seen)
+	case *ssa.UnOp:
+		return dependsOnPhi(x.X, seen)
+	}
+	return false
 }
